@@ -27,7 +27,7 @@ func ruleExaminedOrNothingReused(c *eng.Ctx) {
 	}
 	var cbCalls []ssa.CallInstruction
 	for _, call := range eng.Calls(fn) {
-		if p, ok := call.Common().Value.(*ssa.Parameter); ok && p.Name() == "cb" {
+		if p, ok := call.Common().Value.(*ssa.Parameter); ok && eng.LogicalName(p) == "cb" {
 			cbCalls = append(cbCalls, call)
 		}
 	}
